@@ -35,11 +35,11 @@ def setup():
 def run_job(kind, key):
     w, I, cs = setup()
     if kind == 'prefixes':
-        c = [x for x in cs if x.qualname == key][0]
+        c = [x for x in cs if getattr(x, 'role', x.qualname) == key][0]
         return dict(job=key, parts=verify_contract(I, c, PROP, list_prefixes=SPLIT_DEPTH), records=[])
     if kind == 'contract':
         qual, case, prefix = key
-        c = [x for x in cs if x.qualname == qual][0]
+        c = [x for x in cs if getattr(x, 'role', x.qualname) == qual][0]
         recs, npaths = verify_contract(I, c, PROP, only_case=case, prefix=prefix)
         for r in recs:
             r['witness'] = dict(function=c.name)
